@@ -34,6 +34,7 @@ type C16Case struct {
 	Scores    bool     `json:"scores,omitempty"`       // explicit match / mismatch / gap scores instead of the substitution matrix
 	ExtraRefs []string `json:"extra_refs,omitempty"`   // further reference ORFs given with the ORF
 	RefAt     int      `json:"ref_at,omitempty"`       // rank of the ORF among the references
+	RunFirst  bool     `json:"run_first,omitempty"`    // the run under test comes first, before the one-worker reference and the ORF search of the harness
 	RefsAlike bool     `json:"refs_alike,omitempty"`   // the further references are variants of the ORF (no claim about which one a sequence matches best)
 	Choices   []int    `json:"choices"`
 }
@@ -181,6 +182,7 @@ func (c16) Gen(rs uint64, tier string, race bool) interface{} {
 		c.Seqs = append(c.Seqs, s)
 		c.Verbatim = append(c.Verbatim, vstart)
 	}
+	c.RunFirst = r.Bool()
 	if r.Chance(0.25) {
 		c.BadAt = r.Intn(ns + 1)
 		switch r.Intn(4) {
@@ -358,6 +360,14 @@ func (c16) Run(ctx *Ctx, ci interface{}) (o Outcome) {
 		o.Add("probe_more_sequences_than_channel_slots", 1)
 	}
 
+	cfg := SchedCfg{Seed: c.Seed, Policy: c.Policy, Choices: c.Choices, Strict: ctx.Strict, MaxSteps: budget}
+	var run phaseRun
+	if c.RunFirst {
+		// a process that has phased nothing yet starts with several workers
+		run = c.runPhase(ctx, c.Cpus, cfg)
+		o.Add("run_under_test_before_reference", 1)
+	}
+
 	// input-level clause: the ORF search (no schedule in it; rides along)
 	if !c.GiveRef && !faulty {
 		_, seqs, _, all := c.bags()
@@ -388,8 +398,9 @@ func (c16) Run(ctx *Ctx, ci interface{}) (o Outcome) {
 	}
 
 	ref := c.runPhase(ctx, 1, SchedCfg{Seed: 1, Policy: PolFIFO, MaxSteps: budget})
-	cfg := SchedCfg{Seed: c.Seed, Policy: c.Policy, Choices: c.Choices, Strict: ctx.Strict, MaxSteps: budget}
-	run := c.runPhase(ctx, c.Cpus, cfg)
+	if !c.RunFirst {
+		run = c.runPhase(ctx, c.Cpus, cfg)
+	}
 	if run.sr.Diverged != "" {
 		ctx.Diverged = run.sr.Diverged
 		return
